@@ -9,7 +9,7 @@
   i.e. they also cover lengths/sizes outside the round-trip domain; the reader theorems are for
   the domain `Val.wf` (strings < 2^31 bytes, sizes < 2^31, field type ≠ STOP, message type < 2^16).
 -/
-import Verif.Lemmas.WireS
+import Verif.Lemmas.WireRd
 namespace Verif.C01
 open Verif.Wire
 
@@ -76,7 +76,29 @@ theorem stream_read_enc_buffered (v : Val) (hv : v.wf) (r : Rd) (rest : Bytes)
     ∃ r', brRead v.kind r = .ok (v, r') ∧ remaining r' = rest ∧ r'.readLen = r.readLen + (enc v).length :=
   stream_read_enc bufferedCursor v hv r rest hrem hl
 
+/-- stream_read_enc on the reader model itself, with no contract assumed: for EVERY reader state `r`
+    (any buffer contents, capacity, sticky error, statistics) and EVERY source script, if the state
+    satisfies the representation invariant (`ri ≤ len(buf)`, an unallocated buffer is empty — true of
+    every fresh reader, `rinv_newDefault`/`rinv_newBytes`, and preserved by every operation), its
+    remaining stream starts with the encoding, and the reader can still deliver that many bytes
+    (`Live`: however they are requested, piece by piece, each Next/ReadBinary is served — i.e. the
+    script yields them before it fails, in whatever fragments, with whatever empty reads), then the
+    stream reader returns the value, leaves exactly the rest and advances ReadLen by the encoding's
+    length. "Any fragmentation" is the universally quantified script inside `r`. -/
+theorem stream_read_enc_live (v : Val) (hv : v.wf) (r : Rd) (rest : Bytes) (hI : RInv r)
+    (hrem : remaining r = enc v ++ rest) (hl : Live r (enc v).length) :
+    ∃ r', brRead v.kind r = .ok (v, r') ∧ remaining r' = rest ∧ r'.readLen = r.readLen + (enc v).length := by
+  obtain ⟨r', h1, h2, h3⟩ := stream_read_enc liveCursor v hv r rest hrem ⟨hI, hl⟩
+  exact ⟨r', h1, h2, h3⟩
+
 /-! ## non-vacuity: concrete instances of the hypotheses -/
+
+/-- a DefaultReader over a source that delivers a field header byte by byte, with an empty read in
+    between and the last byte together with io.EOF, satisfies the hypotheses of `stream_read_enc_live` -/
+example :
+    let r := Rd.newDefault ⟨enc (.fieldBegin 11 (-1)) ++ [9], [⟨1, none⟩, ⟨0, none⟩, ⟨1, none⟩, ⟨1, none⟩, ⟨1, some .eof⟩]⟩
+    RInv r ∧ remaining r = enc (.fieldBegin 11 (-1)) ++ [9] ∧ Live r (enc (.fieldBegin 11 (-1))).length :=
+  ⟨rinv_newDefault _, by decide, liveB_sound 3 3 _ (by decide)⟩
 
 example : (Val.str [0x68, 0xff]).wf ∧ (Val.messageBegin [0x66] 1 (-7)).wf ∧ (Val.fieldBegin 11 (-1)).wf ∧
     (Val.mapBegin 0xff 0x80 2147483647).wf ∧ (Val.double 0x7ff8000000000001).wf := by decide
